@@ -62,11 +62,11 @@ def _cvc5_check(smt2: str, timeout_ms: int):
 
 
 def _work(job):
-    idx, smt2, timeout_ms, cross = job
+    idx, smt2, timeout_ms, cross, use_cvc5 = job
     r, dt, reason = _z3_check(smt2, timeout_ms)
     backend = "z3"
     log = [("z3", r, round(dt, 3))]
-    if r in ("unknown", "error"):
+    if r in ("unknown", "error") and use_cvc5:
         r2, dt2, reason2 = _cvc5_check(smt2, timeout_ms)
         log.append(("cvc5", r2, round(dt2, 3)))
         if r2 in ("sat", "unsat"):
@@ -83,10 +83,10 @@ def _work(job):
     return idx, r, backend, round(dt, 3), reason, log
 
 
-def discharge(queries, timeout_ms=20000, procs=None, cross=False):
+def discharge(queries, timeout_ms=20000, procs=None, cross=False, cvc5=True):
     """queries: list of SMT2 strings -> list of dicts(result, backend, time_s, reason, log) in order."""
     procs = procs or min(16, os.cpu_count() or 4)
-    jobs = [(i, q, timeout_ms, cross) for i, q in enumerate(queries)]
+    jobs = [(i, q, timeout_ms, cross, cvc5) for i, q in enumerate(queries)]
     results = [None] * len(jobs)
     if not jobs:
         return results
@@ -113,3 +113,76 @@ def solve_model(assertions, timeout_ms=20000):
         s.add(a)
     r = s.check()
     return (s.model() if r == z3.sat else None), str(r)
+
+
+# ----------------------------------------------------------------------------- bounded expansion
+def _is_var0(t):
+    return z3.is_var(t) and z3.get_var_index(t) == 0
+
+
+def _range_of(guard):
+    """lo, hi from a guard And(var >= lo, var < hi, ...) over de Bruijn var 0 (None if not of that shape)."""
+    conj = guard.children() if z3.is_and(guard) else [guard]
+    lo = hi = None
+    for c in conj:
+        if z3.is_app(c) and c.num_args() == 2:
+            a, b = c.arg(0), c.arg(1)
+            k = c.decl().kind()
+            if k == z3.Z3_OP_GE and _is_var0(a):
+                lo = b
+            elif k == z3.Z3_OP_LE and _is_var0(b):
+                lo = a
+            elif k == z3.Z3_OP_LT and _is_var0(a):
+                hi = b
+            elif k == z3.Z3_OP_GT and _is_var0(b):
+                hi = a
+    return lo, hi
+
+
+def _has_var(t, depth=0):
+    stack = [t]
+    seen = set()
+    while stack:
+        x = stack.pop()
+        if x.get_id() in seen:
+            continue
+        seen.add(x.get_id())
+        if z3.is_var(x):
+            return True
+        if z3.is_quantifier(x):
+            stack.append(x.body())
+        else:
+            stack.extend(x.children())
+    return False
+
+
+def bounded_expand(assertions, B):
+    """Replace every index quantifier  Q i. lo <= i < hi (=> | and) body  by its B instances
+    i = lo .. lo+B-1 and add the side constraints hi - lo <= B.  The result implies the original
+    conjunction, so `sat` of the result is a genuine `sat` (used for counterexamples and covers);
+    `unsat` of the result says nothing."""
+    side = []
+
+    def walk(e):
+        if z3.is_quantifier(e):
+            if e.num_vars() == 1 and e.var_sort(0) == z3.IntSort():
+                body = e.body()
+                guard = None
+                if e.is_forall() and z3.is_implies(body):
+                    guard = body.arg(0)
+                elif e.is_exists() and z3.is_and(body):
+                    guard = body
+                if guard is not None:
+                    lo, hi = _range_of(guard)
+                    if lo is not None and hi is not None and not _has_var(lo) and not _has_var(hi):
+                        side.append(hi - lo <= B)
+                        insts = [walk(z3.substitute_vars(body, lo + k)) for k in range(B)]
+                        return z3.And(insts) if e.is_forall() else z3.Or(insts)
+            return e
+        if z3.is_app(e) and e.num_args() > 0:
+            kids = [walk(c) for c in e.children()]
+            return e.decl()(*kids)
+        return e
+
+    out = [walk(a) for a in assertions]
+    return out + side
